@@ -12,14 +12,14 @@ from ..ctx import stable_hash
 
 ID = "C13"
 LEVEL = "exploration"
-TIERS = {"quick": {"shards": 16, "budget_s": 120, "runs": 100, "line_runs": 10, "systematic_pipelines": 2, "systematic_deviations": 1},
-         "thorough": {"shards": 16, "budget_s": 900, "runs": 9000, "line_runs": 600, "systematic_pipelines": 6, "systematic_deviations": 2}}
+TIERS = {"quick": {"shards": 16, "budget_s": 120, "runs": 100, "line_runs": 10, "systematic_pipelines": 2, "systematic_deviations": 1, "stress_runs": 8},
+         "thorough": {"shards": 16, "budget_s": 900, "runs": 9000, "line_runs": 600, "systematic_pipelines": 6, "systematic_deviations": 2, "stress_runs": 150}}
 RULE = ("Pipelines as the command line builds them - reader wrapped by the real StreamSaverWorker (its own writer thread), "
         "TokenizerWorker, AudioEventsJoinerWorker and RegionSaverWorker observers - run under the deterministic scheduler of C12 "
         "(strategies that make the writer lag or run ahead, timeout firings, line-level pre-emption), with cache sizes {1 byte, "
         "< block, = block, k blocks, > stream, 0}, empty and event-free streams, silence 0 / sub-sample / several windows, "
         "templates with format specs; sources with short reads; runs that are stopped; systematic core: every schedule with <= k "
-        "deviations (k=1 quick, k=2 thorough) for tiny saver pipelines.  Oracle on files read back with stdlib wave/open: blocks produced by the wrapped reader "
+        "deviations (k=1 quick, k=2 thorough) for tiny saver pipelines; a real-time stress mode with the real queue.Queue.  Oracle on files read back with stdlib wave/open: blocks produced by the wrapped reader "
         "(inner log) == blocks the tokenizer saw (outer proxy log); saved wav frames == concatenation of those blocks and header "
         "== source rate/width/channels; joiner file == split_and_join_with_silence() == events joined by round(silence*rate) zero "
         "samples (nothing before the first / after the last; empty when no event); one region file per detection, named "
@@ -239,6 +239,48 @@ def systematic(ctx, conf, tmpdir):
             ctx.count("systematic_pipelines_fully_enumerated")
 
 
+def stress(ctx, conf, tmpdir):
+    """real threads + the real queue.Queue (the scheduler replaces the queue, this mode does not)."""
+    from ..sched import stress as ST
+
+    rng = ctx.rng("stress")
+    for i in range(conf["stress_runs"]):
+        case = P.random_pipeline_case(rng, max_windows=25, want_saver=True)
+        built = AC.build_audio(case)
+        if built is None:
+            continue
+        data, _ = built
+        P.clean_dir(tmpdir)
+        expected = P.split_reference(data, case)
+        out = ST.run_real_saver(case, data, rng, tmpdir)
+        ctx.count("stress_runs")
+        ctx.case(stable_hash(["stress", data, repr(sorted(P.case_json(case).items()))]), bool(data))
+        if out["inconclusive"]:
+            ctx.count("inconclusive_runs")
+            ctx.note("stress watchdog fired: " + out["inconclusive"])
+            continue
+        w = {"case": P.case_json(case), "mode": "real-time stress"}
+        bps = case["width"] * case["channels"]
+        try:
+            frames, r, sw, ch = P.wav_read(out["stream"])
+            jframes = P.wav_read(out["joined"])[0]
+        except Exception as exc:
+            ctx.violation("saved-stream-unreadable", dict(w, exception=repr(exc)[:200]))
+            continue
+        sil = bytes(round(case["silence"] * case["rate"]) * bps)
+        if frames != data or (r, sw, ch) != (case["rate"], case["width"], case["channels"]):
+            ctx.violation("saved-stream-lost-blocks" if len(frames) < len(data) else "saved-stream-blocks-out-of-order-or-altered",
+                          dict(w, saved=len(frames), read=len(data)))
+        elif jframes != sil.join(b for _, _, _, b in expected):
+            ctx.violation("joiner-file-differs-from-detections", dict(w, got=len(jframes)))
+        elif out["log"] != expected:
+            ctx.violation("observer-detections-differ", dict(w, got=len(out["log"]), expected=len(expected)))
+        else:
+            ctx.count("stress_files_checked", 2)
+        if ctx.out_of_time():
+            return
+
+
 def run_shard(ctx):
     conf = TIERS[ctx.tier]
     tmpdir = tempfile.mkdtemp(prefix="vf-c13-")
@@ -250,6 +292,7 @@ def run_shard(ctx):
             if ctx.out_of_time():
                 break
         systematic(ctx, conf, tmpdir)
+        stress(ctx, conf, tmpdir)
         rng = ctx.rng("lines")
         for i in range(conf["line_runs"]):
             case = shape_case(rng, P.random_pipeline_case(rng, max_windows=16, want_saver=True, line_mode=True))
@@ -272,7 +315,7 @@ def inconclusive(merged, tier):
     c = merged["counters"]
     need = ["scheduled_runs", "saver_runs", "blocks_checked", "joiner_files_checked", "joiner_files_with_zero_events",
             "region_dirs_checked", "region_files_checked", "runs_on_empty_stream", "runs_on_event_free_stream", "runs_with_a_stop", "runs_with_short_reads",
-            "line_mode_runs", "timeouts_fired", "systematic_schedules", "systematic_pipelines_fully_enumerated"]
+            "line_mode_runs", "timeouts_fired", "systematic_schedules", "systematic_pipelines_fully_enumerated", "stress_runs", "stress_files_checked"]
     out = [f"monitor never observed {k}" for k in need if c.get(k, 0) == 0]
     if c.get("max:queue_depth", 0) < 3:
         out.append("the writer never lagged (max queue depth < 3)")
